@@ -310,7 +310,10 @@ def analyse_wrapper(mod, cfg, fn, op, ty, var, names):
                 return res
             labels.add('sum of products')
             continue
+        proc_why = None
         for (label, k, want) in alts:
+            if k == 'D':
+                continue
             if op.ret == 'm' and not cfg.mask_regs:
                 want = T.rep(want, W)
             want = T.canon(want)
@@ -319,6 +322,17 @@ def analyse_wrapper(mod, cfg, fn, op, ty, var, names):
             if want == got:
                 hit = (label, k)
                 break
+        if hit is None:
+            # alternatives decided by a procedure (catalogue/specs.D), tried only when no form matches structurally
+            for (label, k, want) in alts:
+                if k != 'D':
+                    continue
+                verdict, detail = want(got)
+                if verdict is True:
+                    hit = (label + ' [%s]' % detail, 'P')
+                    break
+                proc_why = '%s: %s' % (label, detail)
+        alts = [x for x in alts if x[1] != 'D']
         if hit is None and getattr(op, 'tree', False):
             # same function up to how the nest of selects is expressed (engine/dtree.py: equal decision trees over the
             # comparison conditions, leaves re-canonicalised)
@@ -345,6 +359,8 @@ def analyse_wrapper(mod, cfg, fn, op, ty, var, names):
             res.update(status='mismatch', lane=i, got=T.fmt(got, 8)[:1500], want=T.fmt(want, 8)[:1500],
                        diff_path=d[0], diff_got=T.fmt(d[1], 4)[:400], diff_want=T.fmt(d[2], 4)[:400],
                        chain=src_of(d[1]) or src_of(got))
+            if proc_why:
+                res['diff_want'] = (res['diff_want'] + ' | ' + proc_why)[:700]
             res['deps_ok'] = deps_ok
             return res
         labels.add(hit[0])
